@@ -196,20 +196,40 @@ def _const_nonzero_arg(s):
 
 
 def _has_depth_guard(f):
-    """a comparison of a field/local whose name contains `depth` or `nesting` with a constant, with an Err exit on one side"""
+    """a comparison of a value whose name (field or local) contains `depth` or `nesting` with a bound, in a function that can
+    leave with an error"""
     from ..engine.paths import exit_classes
-    try:
-        err, _ok = exit_classes(f)
-    except Exception:
-        return False
-    if not err:
-        return False
+    from ..engine.cfg import op_place, defs_of
+    builds_err = any('d' in st and st['v']['r'] == 'agg' and st['v'].get('variant') == 'Err' for b in f.blocks for st in b['s'])
+    if not builds_err:
+        try:
+            err, _ok = exit_classes(f)
+        except Exception:
+            return False
+        if not err:
+            return False
+    defs = None
     for b in f.blocks:
         for st in b['s']:
             if 'd' in st and st['v']['r'] == 'bin' and st['v']['op'] in ('Ge', 'Gt', 'Lt', 'Le'):
                 txt = repr(st['v'])
                 if re.search(r"\.(\w*depth\w*|\w*nesting\w*)'", txt):
                     return True
+                for k in ('a', 'b'):
+                    p = op_place(st['v'][k]) if isinstance(st['v'].get(k), dict) else None
+                    seen = 0
+                    while p is not None and seen < 6:
+                        nm = f.names.get(p[0], '')
+                        if re.search(r'depth|nesting', nm, re.I):
+                            return True
+                        defs = defs or defs_of(f)
+                        ds = defs.get(p[0], [])
+                        if len(ds) == 1 and ds[0][1] == 'assign' and ds[0][2]['r'] in ('use', 'ref', 'cast'):
+                            v = ds[0][2]
+                            p = v['p'] if v['r'] == 'ref' else op_place(v['a'])
+                        else:
+                            p = None
+                        seen += 1
     return False
 
 
